@@ -116,3 +116,60 @@ def r3(ctx: Ctx) -> None:
                 early = [x for x in rest[:j] if (x.kind == "call" and (x.name in ("executed_order",) or x.name.startswith("_trigger_event_after_execution"))) or x.kind == "loop"]
                 ctx.check(not early, f, upd[0].node, "holdings are updated before anybody is told about the fills", "update precedes notifications and triggers", f"{len(early)} earlier notification(s)")
     ctx.require(n >= 2, f"{HO}: expected the normal and the high-frequency matching sites")
+
+
+@rule("C05.R4", "the holdings are plain per-agent data: no property intercepts them and the share dictionary is never aliased, handed out or stored elsewhere", "T1 escape analysis + T13", floor=2)
+def r4(ctx: Ctx) -> None:
+    import ast as _ast
+
+    p = ctx.program
+    # (a) no method / property named like the fields in the Agent hierarchy
+    for cname in p.subclasses("Agent"):
+        ci = p.classes[cname]
+        bad = [m for m in ci.methods if m in ("cash_amount", "asset_volumes")]
+        f0 = next(iter(ci.methods.values()), None)
+        ctx.check(not bad, f0, ci.node, f"{cname}: cash_amount / asset_volumes are plain attributes", "no method or property of that name", ", ".join(bad) or "plain")
+        for node in _ast.walk(ci.node):
+            if isinstance(node, _ast.Name) and node.id in ("__setattr__", "__getattr__", "__getattribute__"):
+                ctx.violated(f0, node, f"{cname}: attribute access is not intercepted", "no __setattr__/__getattr__", node.id)
+        for m in ci.methods:
+            if m in ("__setattr__", "__getattr__", "__getattribute__"):
+                ctx.violated(ci.methods[m], ci.methods[m].node, f"{cname}: attribute access is not intercepted", "no __setattr__/__getattr__", m)
+    # (b) every occurrence of `.asset_volumes` is an element access, a membership test, the
+    #     initialisation in Agent.__init__, or a read-only iteration -- never an alias
+    n = 0
+    for mi in p.modules.values():
+        parents = {}
+        for node in _ast.walk(mi.tree):
+            for ch in _ast.iter_child_nodes(node):
+                parents[id(ch)] = node
+        for node in _ast.walk(mi.tree):
+            if not (isinstance(node, _ast.Attribute) and node.attr == "asset_volumes"):
+                continue
+            n += 1
+            par = parents.get(id(node))
+            ok = False
+            how = type(par).__name__
+            if isinstance(par, _ast.Subscript) and par.value is node:
+                ok = True
+            elif isinstance(par, _ast.Compare) and node in par.comparators and all(isinstance(o, (_ast.In, _ast.NotIn)) for o in par.ops):
+                ok = True
+            elif isinstance(par, (_ast.Assign, _ast.AnnAssign)) and (node in getattr(par, "targets", []) or node is getattr(par, "target", None)):
+                fn = None
+                for f in p.all_functions():
+                    if any(x is par for x in _ast.walk(f.node)):
+                        fn = f
+                ok = fn is not None and fn.qualname == "Agent.__init__"
+                how = f"rebinding in {fn.qualname if fn else mi.name}"
+            elif isinstance(par, _ast.Call) and isinstance(par.func, _ast.Name) and par.func.id in ("len", "sum", "sorted", "repr", "str") and node in par.args:
+                ok = True
+            elif isinstance(par, _ast.Attribute) and par.attr in ("keys", "values", "items", "get", "copy"):
+                ok = True
+            elif isinstance(par, (_ast.FormattedValue, _ast.JoinedStr)):
+                ok = True
+            fn2 = None
+            for f in p.all_functions():
+                if f.outer is None and any(x is node for x in _ast.walk(f.node)):
+                    fn2 = f
+            ctx.check(ok, fn2, node, f"use of asset_volumes in {fn2.qualname if fn2 else mi.name}", "element access / membership / len / read-only view (no alias, no hand-out)", "element access" if ok else f"the dictionary itself flows into a {how}")
+    ctx.require(n >= 8, "fewer uses of asset_volumes than confirmed by reading")
